@@ -50,4 +50,26 @@ def generate(seed, tier):
             else: steps.append((h, [x for x in pool if g.chance(0.5)]))
         lines += case(g.pick(["udp", "tcp"]), g.pick(["5080", "6090"]), hosts, steps)
         g.count("random_histories")
+    # the rotation built by the real CreateRoundRobinBackend from host names (one or two names, same or
+    # different ports); host names are unique per case because the package-level resolver keeps them
+    import os, time
+    nonce = "%x" % ((int(time.time()) * 1000 + os.getpid()) % (1 << 32))
+    for k in range(60 if tier == "quick" else 1500):
+        two = g.chance(0.7)
+        ha = "a%s-%d.invalid" % (nonce, k); hb = "b%s-%d.invalid" % (nonce, k)
+        pa = g.pick(["5060", "5070"]); pb = g.pick(["5060", "5070", "5080"]) if two else None
+        hosts = [(ha, pa)] + ([(hb, pb)] if two else [])
+        proto = g.pick(["udp", "tcp"])
+        lines.append("res2 new %s %s %s" % (proto, nonce, " ".join(hx("%s:%s" % h) for h in hosts)))
+        for _ in range(g.rint(2, 14)):
+            h = g.pick(hosts)[0]
+            pool = IPS[:3] if h == ha else IPS[2:]      # the two names may even share an address: the ports tell them apart when they differ
+            if two and pa == pb:
+                pool = IPS[:2] if h == ha else IPS[3:]   # same port: disjoint address sets (the property's domain)
+            if g.chance(0.3):
+                lines.append("res2 fail %s" % hx(h))
+            else:
+                lines.append(("res2 ok %s " % hx(h) + " ".join(hx(x) for x in pool if g.chance(0.6))).rstrip())
+        lines.append("res close")
+        g.count("create_rr_cases")
     return lines, g.stats
